@@ -151,6 +151,7 @@ structure Acc where
   capNow : Int
   prevQuiet : Bool := true
   setSince : Bool := false       -- a SetMax was issued since the previous snapshot
+  accBase : Option Nat := none   -- accepted count at the first snapshot after a SetMax that left a shrink parked
   relCount : Nat := 0
   opIdx : Nat := 0
   expected : List Json := []
@@ -278,7 +279,18 @@ def semJudge (listener : Bool) : Judge := liftJudge fun input obs => do
           | none => pure ()
         if sig == "" && listener && quietNow && acc.prevQuiet && !acc.setSince && !intervalOK sn.maxOpen acc.capNow then
           sig := "cap:accepted-above-cap"
-        acc := { acc with sig := sig, prevQuiet := quietNow, setSince := false }
+        -- FIFO: while a shrink stays parked, at most the one Accept that was ahead of it gets a unit
+        let acceptedNow : Nat := sn.granted.headD 0
+        let mut accBase := acc.accBase
+        if listener then
+          if acc.setSince then accBase := if sn.settled && parked > 0 then some acceptedNow else none
+          else if parked == 0 then accBase := none
+          match accBase with
+          | some b =>
+            if sig == "" && !acc.setSince && parked > 0 && !acceptsWhileParkedOK b acceptedNow then
+              sig := "cap:accepted-while-shrink-parked"
+          | none => pure ()
+        acc := { acc with sig := sig, prevQuiet := quietNow, setSince := false, accBase := accBase }
     i := i + 1
   -- established connections stay usable
   let mut sig := acc.sig
